@@ -173,7 +173,8 @@ def _times(chk, only=None):
 
         def sympl(**kw):
             rec["grid"] = _np.array(kw["t_values"])
-            return _np.zeros((len(kw["t_values"]), 6))
+            rec["y0"] = _np.array(kw["initial_state_6d"], dtype=float)
+            return _np.tile(_np.arange(1.0, 7.0), (len(kw["t_values"]), 1))
         rk._FixedStepRK._integrate_fixed_rk = staticmethod(fixed)
         rk._DOP853._integrate_dop853 = staticmethod(dop)
         sym._integrate_symplectic = sympl
@@ -207,7 +208,8 @@ def _times(chk, only=None):
                 hs = HS()
                 if not isinstance(hs, _HamiltonianSystemProtocol):
                     raise AssertionError("stub does not satisfy the Hamiltonian protocol")
-                sol = base._propagate_dynsys(hs, _np.zeros(6), 0.0, 1.5, forward=forward, steps=4, method="symplectic", order=4)
+                sol = base._propagate_dynsys(hs, _np.arange(10.0, 16.0), 0.0, 1.5, forward=forward, steps=4, method="symplectic",
+                                             order=4)
             else:
                 sol = base._propagate_dynsys(Sys(), y0, 0.0, 1.5, forward=forward, steps=4, method=method, order=8)
         finally:
@@ -231,7 +233,14 @@ def _times(chk, only=None):
                 g = rec["grid"]
                 if method == "symplectic":
                     if not _np.array_equal(g, forward * _np.linspace(0.0, 1.5, 4)):
-                        raise Refuted("symplectic-grid", f"low-level symplectic routine received {list(g)}")
+                        raise Refuted("symplectic-grid: the low-level routine must receive the SIGNED grid forward*linspace (a "
+                                      "backward run is the iteration of the step map with negative steps)",
+                                      f"low-level symplectic routine received {list(g)}", inputs={"forward": forward})
+                    if not _np.array_equal(rec["y0"], _np.arange(10.0, 16.0)) or \
+                            not _np.array_equal(_np.asarray(sol.states, float), _np.tile(_np.arange(1.0, 7.0), (4, 1))):
+                        raise Refuted("symplectic propagation alters the initial state handed to / the states returned by the "
+                                      "low-level routine", f"y0 received {rec['y0'].tolist()}, states {sol.states.tolist()[:1]}",
+                                      inputs={"forward": forward})
                 elif not _np.array_equal(g, _np.linspace(0.0, 1.5, 4)):
                     raise Refuted("driver-grid", f"driver received {list(g)} (direction must be carried by the directed system)")
                 if method != "symplectic":
